@@ -88,7 +88,14 @@ func (e *EngineImpl) startRaftNode(opId uint64, nodeId uint64, dbPt *DBPTInfo, c
 	dbPt.node = node
 	dbPt.proposeC = dbPt.node.GetProposeC()
 	dbPt.ReplayC = replayC
-	go readCommitFromRaft(node, client, storage)
+	// the entries of the local log must reach the shards before any entry committed
+	// from now on, otherwise an older value of a key overwrites a newer one
+	replayDone := make(chan struct{})
+	dbPt.replayDone = replayDone
+	go func() {
+		<-replayDone
+		readCommitFromRaft(node, client, storage)
+	}()
 
 	var leaderPtID = -1
 	raftGroups := e.metaClient.DBRepGroups(database)
